@@ -708,15 +708,62 @@ func (e *Engine) resolveStructInvs() error {
 			return fmt.Errorf("structinv %s: %v", si.TypeName, err)
 		}
 		si.Clause.Expr = sp
-		// fields mentioned directly on self
+		// field paths mentioned on self (through embedded and struct-valued fields)
 		si.fields = map[string]bool{}
-		re := regexp.MustCompile(`\b` + regexp.QuoteMeta(si.Self) + `\.([A-Za-z_][A-Za-z0-9_]*)`)
+		si.stable = map[string]bool{}
+		re := regexp.MustCompile(`\b` + regexp.QuoteMeta(si.Self) + `((?:\.[A-Za-z_][A-Za-z0-9_]*)+)`)
 		for _, m := range re.FindAllStringSubmatch(si.Clause.Text, -1) {
-			si.fields[m[1]] = true
+			var cur types.Type = si.rootType
+			var parts []string
+			for _, sel := range strings.Split(strings.TrimPrefix(m[1], "."), ".") {
+				if structOf(cur) == nil || isPointer(cur) {
+					break
+				}
+				obj, idx, _ := types.LookupFieldOrMethod(cur, true, si.Pkg, sel)
+				if _, isVar := obj.(*types.Var); !isVar {
+					break
+				}
+				for _, i := range idx {
+					f := structOf(cur).Field(i)
+					parts = append(parts, f.Name())
+					cur = f.Type()
+				}
+			}
+			if len(parts) > 0 {
+				si.fields[strings.Join(parts, ".")] = true
+				si.stable[strings.Join(parts, ".")] = true
+			}
 		}
 		allowed := map[string]bool{}
 		for _, f := range si.Established {
 			allowed[f] = true
+		}
+		helper := map[string]bool{}
+		for _, f := range si.Helpers {
+			allowed[f] = true
+			helper[f] = true
+		}
+		// helpers are referenced only from establishing functions and other helpers
+		for _, fn := range e.funcs {
+			top := fn
+			for top.Parent() != nil {
+				top = top.Parent()
+			}
+			if top.Pkg == nil || top.Pkg.Pkg != si.Pkg || allowed[top.Name()] {
+				continue
+			}
+			for _, b := range fn.Blocks {
+				for _, ins := range b.Instrs {
+					for _, op := range ins.Operands(nil) {
+						if op == nil || *op == nil {
+							continue
+						}
+						if callee, ok := (*op).(*ssa.Function); ok && callee.Pkg == top.Pkg && helper[callee.Name()] {
+							return fmt.Errorf("structinv %s: helper %s is used in %s, which is not an establishing function", si.TypeName, callee.Name(), fn)
+						}
+					}
+				}
+			}
 		}
 		for _, fn := range e.funcs {
 			top := fn
@@ -732,14 +779,22 @@ func (e *Engine) resolveStructInvs() error {
 					if !ok {
 						continue
 					}
+					if pt, ok := st.Addr.Type().Underlying().(*types.Pointer); ok && types.Identical(pt.Elem(), si.rootType) {
+						if _, isAlloc := st.Addr.(*ssa.Alloc); !isAlloc {
+							return fmt.Errorf("structinv %s: whole-struct store in %s, which is not listed as establishing it", si.TypeName, fn)
+						}
+					}
 					// walk the chain of field/index addresses down to the one rooted at a *T
 					var cur ssa.Value = st.Addr
-					fname := ""
-					for cur != nil {
+					var names []string
+					rooted := false
+					for cur != nil && !rooted {
 						switch a := cur.(type) {
 						case *ssa.FieldAddr:
-							if pt, ok := a.X.Type().Underlying().(*types.Pointer); ok && types.Identical(pt.Elem(), si.rootType) {
-								fname = structOf(pt.Elem()).Field(a.Field).Name()
+							pt := a.X.Type().Underlying().(*types.Pointer)
+							names = append([]string{structOf(pt.Elem()).Field(a.Field).Name()}, names...)
+							if types.Identical(pt.Elem(), si.rootType) {
+								rooted = true
 							}
 							cur = a.X
 						case *ssa.IndexAddr:
@@ -748,8 +803,17 @@ func (e *Engine) resolveStructInvs() error {
 							cur = nil
 						}
 					}
-					if fname != "" && si.fields[fname] {
-						return fmt.Errorf("structinv %s: field %s is written in %s, which is not listed as establishing it", si.TypeName, fname, fn)
+					if !rooted {
+						continue
+					}
+					if hit := si.touches(strings.Join(names, ".")); hit != "" {
+						// a writer under a verified contract re-establishes the invariant at the store (structInvStore);
+						// the field's value is then no longer constant, only the invariant is
+						if con := e.contracts[fn.String()]; con != nil && !con.Trusted {
+							si.stable[hit] = false
+							continue
+						}
+						return fmt.Errorf("structinv %s: field %s is written in %s, which is neither listed as establishing it nor under a verified contract", si.TypeName, hit, fn)
 					}
 				}
 			}
